@@ -17,7 +17,8 @@
 (* "for_bound_not_live" (range(n) operand not counted as a use by liveness).                     *)
 EXTENDS Integers, Sequences, FiniteSets, TLC
 
-CONSTANTS Deviations, MaxNodes, MinNodes, MaxDepth, MaxBlock, Rich
+CONSTANTS Deviations, MaxNodes, MinNodes, MaxDepth, MaxBlock, Rich,
+          Kinds          \* which control-flow statements a derivation may open: subset of {"if", "for", "while", "brk"}
 VARIABLES stack, nodes, stage, prog, ret, refused, res, info
 vars == <<stack, nodes, stage, prog, ret, refused, res, info>>
 
@@ -36,13 +37,14 @@ EV(a) == <<"v", a, "", 0>>
 EAddC(a, c) == <<"addc", a, "", c>>
 EAdd(a, b) == <<"add", a, b, 0>>
 EMul(a, b) == <<"mul", a, b, 0>>
+ESub(a, b) == <<"sub", a, b, 0>>     \* a - b
 ELt(a, c) == <<"lt", a, "", c>>      \* a < c   (bool as 0/1)
 EGt(a, c) == <<"gt", a, "", c>>      \* a > c
 ECall(a) == <<"call", a, "", 0>>     \* h(a) = a*2 + 1, a script sub-function
 EAttr(a) == <<"attr", a, "", 0>>     \* a * alpha, alpha an attribute parameter (value 2)
 EC(c) == <<"c", "", "", c>>
 
-UsedE(e) == CASE e[1] = "c" -> {} [] e[1] \in {"add", "mul"} -> {e[2], e[3]} [] OTHER -> {e[2]}
+UsedE(e) == CASE e[1] = "c" -> {} [] e[1] \in {"add", "mul", "sub"} -> {e[2], e[3]} [] OTHER -> {e[2]}
 EvalE(e, env) ==
   IF \E u \in UsedE(e) : env[u] = UNDEF THEN UNDEF
   ELSE CASE e[1] = "v" -> env[e[2]]
@@ -50,6 +52,7 @@ EvalE(e, env) ==
          [] e[1] = "addc" -> env[e[2]] + e[4]
          [] e[1] = "add" -> env[e[2]] + env[e[3]]
          [] e[1] = "mul" -> env[e[2]] * env[e[3]]
+         [] e[1] = "sub" -> env[e[2]] - env[e[3]]
          [] e[1] = "lt" -> IF env[e[2]] < e[4] THEN 1 ELSE 0
          [] e[1] = "gt" -> IF env[e[2]] > e[4] THEN 1 ELSE 0
          [] e[1] = "call" -> env[e[2]] * 2 + 1
@@ -212,7 +215,7 @@ GExec(s, env, out, devs) ==
 -----------------------------------------------------------------------------
 (* program derivation *)
 AsgMenu == LET base == {EV("a"), EV("x"), EV("y"), EAddC("x", 1), EAddC("y", 1), EMul("x", "y"), EAdd("x", "a")}
-               rich == {ECall("x"), EAttr("y"), EAddC("a", -1)} \cup {EAdd("y", stack[d].v) : d \in {d \in 1..Len(stack) : stack[d].k = "for"}}
+               rich == {ECall("x"), EAttr("y"), EAddC("a", -1), EAddC("x", -1)} \cup {EAdd("y", stack[d].v) : d \in {d \in 1..Len(stack) : stack[d].k = "for"}}
            IN [v : AVars, e : IF Rich THEN base \cup rich ELSE base]
 Bounds == {EV("n"), EV("x"), EC(2)}
 CondVars == {"a", "x", "y"}
@@ -237,24 +240,25 @@ AddAsg == /\ CanAdd /\ ~HasBrk(Top.blk)
           /\ \E a \in AsgMenu : stack' = AppendTop(stack, SAsg(a.v, a.e))
           /\ nodes' = nodes + 1
           /\ UNCHANGED <<stage, prog, ret, refused, res, info>>
-OpenIf == /\ CanAdd /\ Len(stack) <= MaxDepth /\ ~HasBrk(Top.blk)
+OpenIf == /\ "if" \in Kinds /\ CanAdd /\ Len(stack) <= MaxDepth /\ ~HasBrk(Top.blk)
           /\ \E c \in CondVars : Push(Frame("if", c, EC(0)))
           /\ nodes' = nodes + 1
           /\ UNCHANGED <<stage, prog, ret, refused, res, info>>
 Else == /\ stage = "build" /\ Top.k = "if" /\ Top.ph = "then" /\ Top.blk # <<>>
         /\ stack' = [stack EXCEPT ![Len(stack)] = [Top EXCEPT !.saved = Top.blk, !.blk = <<>>, !.ph = "else"]]
         /\ UNCHANGED <<nodes, stage, prog, ret, refused, res, info>>
-OpenFor == /\ CanAdd /\ Len(stack) <= MaxDepth /\ ~HasBrk(Top.blk)
-           /\ \E b \in Bounds : Push(Frame("for", NextLoopVar, b))
+OpenFor == /\ "for" \in Kinds /\ CanAdd /\ Len(stack) <= MaxDepth /\ ~HasBrk(Top.blk)
+           /\ \E b \in Bounds \cup {ESub("n", stack[d].v) : d \in {d \in 1..Len(stack) : stack[d].k = "for"}}
+                          \cup (IF Rich THEN {EC(0), EC(1)} ELSE {}) : Push(Frame("for", NextLoopVar, b))
            /\ nodes' = nodes + 1
            /\ UNCHANGED <<stage, prog, ret, refused, res, info>>
 \* `w = cond` in front, `while w:` opened; Close appends `w = cond` to the body
-OpenWhile == /\ CanAdd /\ Len(stack) <= MaxDepth /\ nodes + 3 <= MaxNodes /\ Len(Top.blk) + 2 <= MaxBlock /\ ~HasBrk(Top.blk)
+OpenWhile == /\ "while" \in Kinds /\ CanAdd /\ Len(stack) <= MaxDepth /\ nodes + 3 <= MaxNodes /\ Len(Top.blk) + 2 <= MaxBlock /\ ~HasBrk(Top.blk)
              /\ \E c \in WhileConds : stack' = Append(AppendTop(stack, SAsg("w", c)), Frame("while", "w", c))
              /\ nodes' = nodes + 3
              /\ UNCHANGED <<stage, prog, ret, refused, res, info>>
 \* `w = cond; if w: break` as the last statements of a for body
-AddBreak == /\ stage = "build" /\ Top.k = "for" /\ Top.blk # <<>> /\ ~HasBrk(Top.blk) /\ nodes + 2 <= MaxNodes
+AddBreak == /\ "brk" \in Kinds /\ stage = "build" /\ Top.k = "for" /\ Top.blk # <<>> /\ ~HasBrk(Top.blk) /\ nodes + 2 <= MaxNodes
             /\ \E c \in BrkConds : stack' = AppendTop(AppendTop(stack, SAsg("w", c)), SBrk)
             /\ nodes' = nodes + 2
             /\ UNCHANGED <<stage, prog, ret, refused, res, info>>
@@ -303,6 +307,9 @@ DesignFaithful == stage = "done" => FaithfulOf(info.idealRefused, info.idealRes)
 DeviationsExplain == stage = "done" => (FaithfulOf(refused, res) \/ info.why # {})
 \* vacuity witnesses
 SomeAcceptedLoopIf == ~(stage = "done" /\ ~refused /\ \E j \in 1..Len(prog) : prog[j].k = "for" /\ \E m \in 1..Len(prog[j].t) : prog[j].t[m].k = "if")
+AllKinds == {"if", "for", "while", "brk"}
+LoopKinds == {"for"}
+IfForKinds == {"if", "for"}
 NoDevs == {}
 \* both deviations were real on the pinned tree and are fixed in /repo (commit "fix: loop liveness ..."):
 \* the implementation model now runs without them; a regression re-introducing either shows up as a violation
